@@ -1559,6 +1559,41 @@ impl Check for C11Check {
             }
             cx.stats.exhaustive_parts.insert("chunk chains 'head of a | rest of a + head of b | ASCII run | rest of b' over 4 characters x every split x 13 run lengths (0..300)".into());
         }
+        // very large single feeds whose decoding is longer than the input (round 13): every
+        // ill-formed byte becomes three bytes of U+FFFD, so an output buffer sized from the
+        // input length - or capped - must not make the decoder stop early and drop the rest
+        if cx.begin_group("huge single feeds") {
+            let mut k = 0u64;
+            let mut cases: Vec<(Vec<u8>, &str)> = Vec::new();
+            for n in [70_000usize, 360_000, 1_100_000] {
+                cases.push((vec![0xFFu8; n], "huge all-illformed"));
+                cases.push(([b"\xE2\x82".repeat(n / 2), b"x".to_vec()].concat(), "huge truncated"));
+                // mostly ASCII with a few ill-formed bytes, the last ones right at the end
+                let mut v: Vec<u8> = (0..n).map(|i| b'a' + (i % 26) as u8).collect();
+                for j in 0..48 {
+                    let at = (j * 7919 + 13) % n;
+                    v[at] = 0x80 + (j as u8 % 0x40);
+                }
+                let l = v.len();
+                v[l - 1] = 0x9F;
+                v[l - 2] = 0xF0;
+                v.extend_from_slice(b"\x1b]2;end\x07");
+                cases.push((v, "huge mostly-ascii"));
+                // well-formed three-byte characters only (output as long as the input)
+                cases.push((["\u{20ac}".repeat(n / 3).into_bytes(), b"\x1b]2;end\x07".to_vec()].concat(), "huge well-formed"));
+            }
+            for (bytes, kind) in cases {
+                k += 1;
+                if !cx.mine(k) {
+                    continue;
+                }
+                c11_run(cx, &[Seg::Bytes(bytes.clone())], kind);
+                // the same in two feeds cut in the middle of the expansion
+                let cut = bytes.len() / 2 + 1;
+                c11_run(cx, &[Seg::Bytes(bytes[..cut].to_vec()), Seg::Bytes(bytes[cut..].to_vec())], kind);
+            }
+            cx.stats.exhaustive_parts.insert("single feeds of 70 000 / 360 000 / 1 100 000 bytes: all ill-formed, truncated two-byte heads, mostly ASCII with 48 ill-formed bytes, well-formed three-byte characters".into());
+        }
         // all byte strings of length <= 3 over the class alphabet
         let maxlen = 3;
         if cx.begin_group("alphabet") {
